@@ -148,8 +148,9 @@ def worker():
     for sc in job.get("scenarios", []):
         for kind in ("pickle", "deepcopy"):
             try:
-                if sc == "swc":
-                    m = jx.read_swc(os.path.join(os.environ.get("VERIF_REPO", "/repo"), "tests/swc_files/morph_minimal.swc"), ncomp=2)
+                if sc.startswith("swc"):
+                    fname = "morph_minimal.swc" if sc == "swc" else "morph_250_single_point_soma.swc"
+                    m = jx.read_swc(os.path.join(os.environ.get("VERIF_REPO", "/repo"), "tests/swc_files", fname), ncomp=2)
                     from jaxley.channels import HH
                     m.insert(HH())
                     m.branch(1).add_to_group("g")
@@ -183,7 +184,7 @@ def worker():
                 frozen0 = pickle.dumps(m)
                 if digest(twin) != d0:
                     res["mismatch"].append({"kind": "copy_differs", "copy": kind, "scenario": sc})
-                kw = {"delta_t": 0.025} if sc == "swc" else {"delta_t": DT}
+                kw = {"delta_t": 0.025} if sc.startswith("swc") else {"delta_t": DT}
                 ra = np.asarray(jx.integrate(m, params=m.get_parameters(), **kw))
                 rb = np.asarray(jx.integrate(twin, params=twin.get_parameters(), **kw))
                 if not np.array_equal(ra, rb, equal_nan=True):
@@ -198,7 +199,7 @@ def worker():
                 # independence: edit the copy, the original keeps its digest (and vice versa)
                 twin.set("radius", 3.3)
                 twin.delete_recordings()
-                if sc == "swc":
+                if sc.startswith("swc"):
                     twin.delete_stimuli()
                     twin.delete_trainables()
                     twin.branch(1).set_ncomp(3)
@@ -218,7 +219,7 @@ def worker():
                 twin2 = pickle.loads(pickle.dumps(m)) if kind == "pickle" else copy.deepcopy(m)
                 d2 = digest(twin2)
                 m.set("length", 7.7)
-                if sc == "swc":
+                if sc.startswith("swc"):
                     m.delete_stimuli(); m.delete_trainables(); m.delete_recordings()
                     m.branch(2).set_ncomp(4)
                 else:
@@ -260,7 +261,7 @@ def main():
     model = {"K": [2, 4, 6, 8, 10, 12], "T": 2,
              "views": {k: {"rows": r} for k, r in {"all": [0, 1, 2, 3, 4, 5], "b0": [0, 1], "b01": [0, 1, 2], "b12": [2, 3, 4, 5],
                                                   "c0": [0, 2, 3], "mid": [1, 2, 3], "last": [5]}.items()}}
-    jobs = [{"model": model, "states": ch, "grad_every": 1 if not quick else 2, "scenarios": ["swc", "net"] if i == 0 else []}
+    jobs = [{"model": model, "states": ch, "grad_every": 1 if not quick else 2, "scenarios": ["swc", "net"] if i == 0 else (["swc_single_point_soma"] if i == 1 else [])}
             for i, ch in enumerate(C.chunks(sts, C.NCPU * 2))]
     outs = C.run_workers("copies_check", jobs, timeout=3000)
     tot = Counter()
